@@ -20,6 +20,7 @@ import Vlsp.Spec.BumpSpec
 import Vlsp.Model.Registry
 import Vlsp.Model.Server
 import Vlsp.Model.DataDir
+import Vlsp.Model.Sites
 import Vlsp.Model.Config
 
 /-! Line-protocol plumbing shared by the driver's op tables. -/
@@ -424,6 +425,20 @@ def lspStep (st : DState) (op : String) (f : List Text) : Option (DState × Stri
       | c :: ':' :: name => if c == 'L' || c == 'T' || c == 'V' then some (name, c) else none
       | _ => none
     some ({ st with srv := { now := 1000, ccfg := ⟨Generated.defaultRefreshIntervalMs, ip == ['T']⟩, store := store == ['T'], faults := fl } }, "ok")
+  | "site.npmalias", [v] =>
+    some (st, match Sites.npmAlias v with
+      | none => "PANIC" | some none => "N" | some (some (n, ver)) => s!"P{hex n}|{hex ver}")
+  | "site.jsr", [v] =>
+    some (st, match Sites.jsrSpecifier v with
+      | none => "PANIC" | some none => "N" | some (some (n, ver)) => s!"P{hex n}|{hex ver}")
+  | "site.uses", [v] =>
+    some (st, match Sites.usesSplit v with
+      | none => "PANIC" | some none => "N" | some (some (o, r, ver)) => s!"P{hex (o ++ '/' :: r)}|{hex ver}")
+  | "site.split", [v] =>
+    -- the byte-offset model of split_and_parts against the character-level model the C02 streams tie to the code
+    some (st, match Sites.splitAndPartsBytes v with
+      | none => "PANIC"
+      | some ps => if ps == Npm.splitAndParts v then "same " ++ listStr ps else "DIFF " ++ listStr ps ++ " " ++ listStr (Npm.splitAndParts v))
   | "ml.restart", [store] =>
     -- a new server process over the same database file
     some ({ st with srv := { now := 1000, ccfg := st.srv.ccfg, db := st.srv.db, store := store == ['T'] } }, "ok")
